@@ -303,3 +303,138 @@ def differential(ctx):
                               f"{c['prefix']}): reported lines {got}, expected {c['expected']} (violations at {c['all']})",
                          witness={"file": c["file"], "text": c["text"], "reported": got, "expected": c["expected"]})]
     return [dict(base, verdict="passed", note=f"bounded: {n} generated files, every directive removed exactly the named violations in its scope")]
+
+
+# ------------------------------------------------------------------ two parser generations in one process
+_GEN_RUNNER = r'''
+import json, os, sys, tempfile, shutil
+sys.path.insert(0, sys.argv[1])
+spec = json.loads(sys.stdin.read())
+from src.api import Linter
+d = tempfile.mkdtemp(prefix="c04g_")
+neutral = tempfile.mkdtemp(prefix="c04gcwd_")
+out = []
+try:
+    os.makedirs(os.path.join(d, "sub"))
+    open(os.path.join(d, ".thailintignore"), "w").write("sub/\n")
+    f = os.path.join(d, "sub", "x.py")
+    open(f, "w").write("def f():\n    return 3601\n")
+    os.chdir(neutral)  # the rules' own parsers are rooted at the working directory: keep it free of ignore files
+    roots = {"A": d, "B": os.path.join(d, "sub")}
+    for g in spec["order"]:
+        vs = Linter(project_root=roots[g]).lint(f)
+        out.append([g, sorted(v.line for v in vs if v.rule_id.startswith("magic-numbers"))])
+finally:
+    os.chdir("/")
+    shutil.rmtree(d, ignore_errors=True)
+    shutil.rmtree(neutral, ignore_errors=True)
+print(json.dumps(out))
+'''
+
+
+@custom("c04-parser-generations", props=["C04"])
+def parser_generations(ctx):
+    """Reuse scenario (one process, same file path, two parser generations with different roots / pattern sets): under
+    root A the repository pattern `sub/` ignores sub/x.py, under root B = A/sub nothing does. The verdict must follow the
+    CURRENT parser's patterns in both orders -- nothing decided by an earlier parser may be served to a later one."""
+    base = {"kind": "bounded", "tool": "Linter API, two generations in one process", "budget": 2, "cases": 2, "solver": "native-run",
+            "ms": 0.0, "carries": True}
+    obs = []
+    for order in ("AB", "BA", "ABA"):
+        name = f"custom:c04-parser-generations/{order}"
+        try:
+            res = _run(_GEN_RUNNER, ctx["repo"], {"order": order})
+        except BaseException as e:  # noqa
+            obs.append(dict(base, name=name, verdict="unknown", note=f"runner failed: {e!r}"[:300]))
+            continue
+        bad = [(g, got) for g, got in res if got != ([] if g == "A" else [2])]
+        obs.append(dict(base, name=name, verdict="passed" if not bad else "refuted", witness_confirmed=bool(bad),
+                        note=f"bounded: generations {order}: reported lines {res}" + ("" if not bad else
+                             " -- expected [] under root A (pattern `sub/`) and [2] under root B (no pattern), whatever came before"),
+                        witness=None if not bad else {"order": order, "reported": res}))
+    return obs
+
+
+# ------------------------------------------------------------------ structural: no shared mutable class-level state
+import ast as _ast  # noqa: E402
+
+_MUTATORS = {"append", "extend", "add", "update", "clear", "setdefault", "pop", "insert", "remove", "discard", "sort", "reverse",
+             "popitem", "appendleft", "extendleft"}
+
+
+def _is_mutable_value(v):
+    if isinstance(v, (_ast.Dict, _ast.List, _ast.Set, _ast.DictComp, _ast.ListComp, _ast.SetComp)):
+        return True
+    if isinstance(v, _ast.Call):
+        f = v.func
+        nm = f.id if isinstance(f, _ast.Name) else (f.attr if isinstance(f, _ast.Attribute) else "")
+        return nm in ("dict", "list", "set", "defaultdict", "OrderedDict", "deque", "Counter")
+    return False
+
+
+def class_level_mutables(cls):
+    """{name: lineno} of class-body assignments whose value is a mutable container, excluding dataclass `field(...)`."""
+    out = {}
+    for st in cls.body:
+        tgt, val = None, None
+        if isinstance(st, _ast.Assign) and len(st.targets) == 1 and isinstance(st.targets[0], _ast.Name):
+            tgt, val = st.targets[0].id, st.value
+        elif isinstance(st, _ast.AnnAssign) and isinstance(st.target, _ast.Name) and st.value is not None:
+            tgt, val = st.target.id, st.value
+        if tgt and _is_mutable_value(val):
+            out[tgt] = st.lineno
+    return out
+
+
+def mutated_through_instances(cls, names):
+    """Names among `names` that some method writes through self / cls / the class name WITHOUT having rebound them on the
+    instance in __init__ (self.X[...] = v, self.X.append(...), del self.X[k] ...)."""
+    rebound = set()
+    for st in cls.body:
+        if isinstance(st, _ast.FunctionDef) and st.name in ("__init__", "__post_init__"):
+            for n in _ast.walk(st):
+                if isinstance(n, _ast.Attribute) and isinstance(n.ctx, _ast.Store) and isinstance(n.value, _ast.Name) \
+                        and n.value.id == "self":
+                    rebound.add(n.attr)
+    hit = {}
+    for n in _ast.walk(cls):
+        recv = None
+        if isinstance(n, _ast.Subscript) and isinstance(n.ctx, (_ast.Store, _ast.Del)):
+            recv = n.value
+        elif isinstance(n, _ast.Call) and isinstance(n.func, _ast.Attribute) and n.func.attr in _MUTATORS:
+            recv = n.func.value
+        if isinstance(recv, _ast.Attribute) and isinstance(recv.value, _ast.Name) and recv.value.id in ("self", "cls", cls.name) \
+                and recv.attr in names and recv.attr not in rebound:
+            hit.setdefault(recv.attr, n.lineno)
+    return hit
+
+
+@custom("c04-class-level-state", props=["C04"])
+def class_level_state(ctx):
+    """Structural: an object that holds per-run state (decision memos, caches, collected evidence) must hold it in
+    INSTANCE attributes. A mutable container bound in a class body and written through self/cls (never rebound in
+    __init__) is one object shared by every instance -- and by every run in the process. Scans all of src/."""
+    root = os.path.join(ctx["repo"], "src")
+    obs, scanned = [], 0
+    for dp, _dn, files in os.walk(root):
+        for f in sorted(files):
+            if not f.endswith(".py"):
+                continue
+            p = os.path.join(dp, f)
+            try:
+                tree = _ast.parse(open(p, encoding="utf-8").read())
+            except (SyntaxError, OSError, UnicodeDecodeError):
+                continue
+            rel = os.path.relpath(p, ctx["repo"])
+            for cls in [n for n in _ast.walk(tree) if isinstance(n, _ast.ClassDef)]:
+                scanned += 1
+                cands = class_level_mutables(cls)
+                for name, line in sorted(mutated_through_instances(cls, set(cands)).items()):
+                    obs.append({"name": f"custom:c04-class-level-state/{rel}::{cls.name}.{name}", "kind": "frame", "verdict": "refuted",
+                                "carries": True, "solver": "ast-scan", "ms": 0.0, "witness_confirmed": False,
+                                "note": f"class-level mutable attribute {cls.name}.{name} (bound at line {cands[name]} of the class "
+                                        f"body, never rebound in __init__) is written through an instance at line {line}: one "
+                                        f"container shared by all instances and all runs"})
+    obs.append({"name": "custom:c04-class-level-state/scan", "kind": "frame", "verdict": "discharged", "carries": False,
+                "solver": "ast-scan", "ms": 0.0, "note": f"{scanned} classes under src/ scanned; findings: {len(obs)}"})
+    return obs
